@@ -16,7 +16,7 @@ pub const ASSUMPTIONS: &[&str] = &[
     "at exactly v = -2^(7w-1) the statement ('strictly inside') leaves the verdict open: rejection or a correct round trip are both accepted (label signed_lower_boundary)",
 ];
 
-fn with_len(v: u64, w: usize) -> Result<Vec<u8>, String> {
+fn with_len<T: tools::Vint>(v: T, w: usize) -> Result<Vec<u8>, String> {
     let r = match w {
         1 => v.as_vint_with_length::<1>().map(|a| a.to_vec()),
         2 => v.as_vint_with_length::<2>().map(|a| a.to_vec()),
@@ -31,10 +31,25 @@ fn with_len(v: u64, w: usize) -> Result<Vec<u8>, String> {
     r.map_err(|e| format!("{:?}", e))
 }
 
+/// the encoder is a trait implemented for u64, u32, u16 and u8: every implementation that can hold the value must behave alike
 pub fn check_unsigned(v: u64) -> Result<u64, String> {
+    let mut checks = check_unsigned_as(v, v, "u64")?;
+    if v <= u32::MAX as u64 {
+        checks += check_unsigned_as(v, v as u32, "u32")?;
+    }
+    if v <= u16::MAX as u64 {
+        checks += check_unsigned_as(v, v as u16, "u16")?;
+    }
+    if v <= u8::MAX as u64 {
+        checks += check_unsigned_as(v, v as u8, "u8")?;
+    }
+    Ok(checks)
+}
+
+fn check_unsigned_as<T: tools::Vint + Copy + std::panic::RefUnwindSafe>(v: u64, tv: T, ty: &str) -> Result<u64, String> {
     let mut checks = 0;
     // default width
-    let d = guarded(|| v.as_vint()).map_err(|p| format!("as_vint({}) panicked: {}", v, p))?;
+    let d = guarded(|| tv.as_vint()).map_err(|p| format!("as_vint({}) panicked: {}", v, p))?;
     match (vint_min_width(v), d) {
         (Some(w), Ok(enc)) => {
             let want = ref_vint(v, w).unwrap();
@@ -53,11 +68,11 @@ pub fn check_unsigned(v: u64) -> Result<u64, String> {
     }
     checks += 1;
     for w in 1..=8usize {
-        let got = guarded(|| with_len(v, w)).map_err(|p| format!("as_vint_with_length::<{}>({}) panicked: {}", w, v, p))?;
+        let got = guarded(|| with_len(tv, w)).map_err(|p| format!("({}) as_vint_with_length::<{}>({}) panicked: {}", ty, w, v, p))?;
         match (ref_vint(v, w), got) {
             (Some(want), Ok(enc)) => {
                 if enc != want {
-                    return Err(format!("as_vint_with_length::<{}>({}) = {:02x?}, expected {:02x?}", w, v, enc, want));
+                    return Err(format!("({}) as_vint_with_length::<{}>({}) = {:02x?}, expected {:02x?}", ty, w, v, enc, want));
                 }
                 let back = guarded(|| tools::read_vint(&enc)).map_err(|p| format!("read_vint({:02x?}) panicked: {}", enc, p))?;
                 match back {
@@ -66,23 +81,10 @@ pub fn check_unsigned(v: u64) -> Result<u64, String> {
                 }
             }
             (None, Err(_)) => {}
-            (Some(_), Err(e)) => return Err(format!("as_vint_with_length::<{}>({}) reports {} although the value fits", w, v, e)),
-            (None, Ok(enc)) => return Err(format!("as_vint_with_length::<{}>({}) = {:02x?} although the value needs more bits", w, v, enc)),
+            (Some(_), Err(e)) => return Err(format!("({}) as_vint_with_length::<{}>({}) reports {} although the value fits", ty, w, v, e)),
+            (None, Ok(enc)) => return Err(format!("({}) as_vint_with_length::<{}>({}) = {:02x?} although the value needs more bits", ty, w, v, enc)),
         }
         checks += 1;
-    }
-    // the narrower Vint impls agree
-    if v <= u32::MAX as u64 {
-        let a = guarded(|| (v as u32).as_vint().ok()).map_err(|p| format!("u32::as_vint panicked: {}", p))?;
-        if a != ref_vint(v, vint_min_width(v).unwrap()) {
-            return Err(format!("(u32){}.as_vint() = {:02x?}", v, a));
-        }
-    }
-    if v <= u8::MAX as u64 {
-        let a = guarded(|| (v as u8).as_vint().ok()).map_err(|p| format!("u8::as_vint panicked: {}", p))?;
-        if a != ref_vint(v, vint_min_width(v).unwrap()) {
-            return Err(format!("(u8){}.as_vint() = {:02x?}", v, a));
-        }
     }
     Ok(checks)
 }
